@@ -107,7 +107,7 @@ def run(out, info, tier, seed):
     t0 = time.time()
     for k in range(n):
         crng = random.Random(seed * 1000003 + k)
-        case = gen.gen_sibling_reader_case(crng) if k % 9 == 7 else gen.gen_chain_case(crng) if k % 8 == 3 else gen.gen_fanin_case(crng) if k % 6 == 1 else gen.gen_parallel_case(crng) if k % 3 == 2 else gen.gen_case(crng, groups=True, clean=0.8, maxn=4)
+        case = gen.gen_forecast_case(crng) if k % 11 == 5 else gen.gen_sibling_reader_case(crng) if k % 9 == 7 else gen.gen_chain_case(crng) if k % 8 == 3 else gen.gen_fanin_case(crng) if k % 6 == 1 else gen.gen_parallel_case(crng) if k % 3 == 2 else gen.gen_case(crng, groups=True, clean=0.8, maxn=4)
         if k % 5 == 4: case['mirror'] = crng.choice([1, 2])       # several entities per simulator, connected index by index
         variants = []
         for lazy in (True, False):
